@@ -703,7 +703,13 @@ pub fn generate_c02(tier: &str, rng: &mut Rng) -> Vec<String> {
             0 => {}
             1 => { let k = rng.range(1, 11) as usize; b.extend(vec![0u8; k]); }                   // 1..11 trailing zero bytes
             2 => { let k = rng.range(1, 11) as usize; let mut t = vec![0u8; k]; let i = rng.below(k as u64) as usize; t[i] = rng.byte() | 1; b.extend(t); } // non-zero short tail
-            3 => { b.extend(vec![0u8; 8]); let g = rng.range(0, 30) as usize; b.extend(rng.bytes(g)); }                 // zero tag then garbage
+            3 => {
+                // zero tag, then garbage — half of the time garbage that itself looks like entries (behind a zero length field, or
+                // directly): nothing behind the terminator is an entry, whatever it looks like
+                b.extend(vec![0u8; 8]);
+                if rng.chance(1, 2) { let g = rng.range(0, 30) as usize; b.extend(rng.bytes(g)); }
+                else { if rng.chance(2, 3) { b.extend(vec![0u8; 4]); } b.extend(valid_encoding(rng, 3)); }
+            }
             4 => { let l = rng.below(b.len() as u64 + 1) as usize; b.truncate(l); }                    // truncation anywhere
             5 => { b.extend(PALETTE[rng.below(8) as usize].to_le_bytes()); b.extend(u32::MAX.to_le_bytes()); let g = rng.below(20) as usize; b.extend(rng.bytes(g)); }
             6 => { // length field exactly-the-end / one past
